@@ -546,7 +546,11 @@ class Gen:
             lvs = []
             for ty in self.data_types[k:k + n]:
                 lvs.append(self.pick_lvalue(sc, ty) or ['var', self.new_scalar(sc, ty)])
-            return [{'k': 'restore', 'label': lab}, {'k': 'read', 'lvs': lvs}]
+            if lvs:
+                return [{'k': 'restore', 'label': lab}, {'k': 'read', 'lvs': lvs}]
+            if lab is not None and not any(v == lab for v in self.restore_labels.values()):
+                pass
+            return [{'k': 'restore', 'label': lab}]
         n = r.randint(1, 3)
         lvs = []
         for _ in range(n):
@@ -581,12 +585,24 @@ class Gen:
         els = None
         if r.random() < 0.5:
             els = self.block(sc, r.randint(0, 2), depth - 1)
-        return {'k': 'if', 'arms': arms, 'els': els}
+        st = {'k': 'if', 'arms': arms, 'els': els}
+        if len(arms) > 1 and r.random() < 0.35:
+            st['inline_arms'] = [i for i in range(1, len(arms)) if r.random() < 0.7]
+        return st
 
     def for_stmt(self, sc, depth):
         r = self.r
         ty = r.choice(self.num_types) if r.random() < 0.3 else '%'
-        v = self.new_scalar(sc, ty)
+        v = None
+        if sc.kind != 'main' and r.random() < 0.3:
+            # a by-reference parameter as control variable
+            ps = [n for n, t in sc.vars.items() if n.startswith('p') and t in self.num_types
+                  and n not in sc.frozen and n[1:2].isdigit()]
+            if ps:
+                v = r.choice(sorted(ps))
+                ty = sc.vars[v]
+        if v is None:
+            v = self.new_scalar(sc, ty)
         sc.frozen.add(v)
         lo = r.randint(-2, 3)
         n = r.randint(0, 4)
@@ -605,6 +621,20 @@ class Gen:
               'nextvar': r.random() < 0.5}
         if r.random() < 0.2:
             st['b'] = ['bin', '+', ['lit', '%', b - 1], ['lit', '%', 1]]
+        if ty == '%' and r.random() < 0.06:
+            # a range wider than the type: limit - start does not fit
+            k = r.choice((10000, 16000))
+            st.update(a=['lit', '%', -2 * k], b=['lit', '%', 2 * k], step=['lit', '%', k])
+            if r.random() < 0.5:
+                st.update(a=['lit', '%', 2 * k], b=['lit', '%', -2 * k], step=['lit', '%', -k])
+            step = k
+            a, b = -2 * k, 2 * k
+        elif self.p['devfuncs'] and sc.kind == 'main' and r.random() < 0.1 and isinstance(step, int):
+            # start, limit and step each make a device call: the order of
+            # evaluation is visible in the device history
+            def pk(n, e):
+                return ['bin', '+', ['bin', '*', ['dev', 'peek', [['lit', '%', n]]], ['lit', '%', 0]], e]
+            st.update(a=pk(1, st['a']), b=pk(2, st['b']), step=pk(3, st['step']))
         pre = []
         tamper = []
         if r.random() < 0.25:
@@ -1264,7 +1294,7 @@ class Gen:
                 body.append({'k': 'let', 'lv': ['var', p['name']], 'e': self.bounded(e, sc)})
             elif r.random() < 0.3:
                 first = 1 + max([i for i, b in enumerate(body)
-                                 if b['k'] in ('dim', 'static')] + [-1])
+                                 if b['k'] in ('dim', 'static', 'const')] + [-1])
                 body.insert(r.randint(first, len(body)),
                             {'k': 'ifl', 'cond': self.cond(sc, 1),
                              'then': [{'k': 'exit', 'what': 'sub'}], 'els': None})
@@ -1281,7 +1311,7 @@ class Gen:
     # -- planted run-time errors (fault kind F6) ---------------------------------
 
     PLANT_KINDS = ('div0_idiv', 'div0_mod', 'div0_fdiv', 'ovf_int', 'ovf_long',
-                   'ovf_conv', 'ovf_mul', 'ovf_neg', 'subscript', 'ill_chr',
+                   'ovf_conv', 'ovf_mul', 'ovf_neg', 'ovf_sngband', 'subscript', 'ill_chr',
                    'ill_chr_hi', 'ill_asc', 'ill_mid', 'ill_space', 'ill_string',
                    'ill_left', 'ill_instr', 'out_of_data', 'bad_data', 'data_ovf')
     PLANT_TRAP = {'div0': 'DIVISION_BY_ZERO', 'ovf': 'INVALID_CELL_VALUE',
@@ -1303,7 +1333,8 @@ class Gen:
 
         repairs = []
         GOOD = {0: 1, 32767: 0, 1: 0, 2147483647: 0, 40000: 4, 20000: 1, 2: 1, -1: 1,
-                256: 65, '': 'A', -2: 2, 4: 2, 100: 2}
+                256: 65, '': 'A', -2: 2, 4: 2, 100: 2, 3.40282357e38: 1.5,
+                3.4028235677973366e38: 1.5, 3.4028236e38: 1.5, -3.40282357e38: 1.5}
 
         def operand(ty, value):
             if fold:
@@ -1330,6 +1361,13 @@ class Gen:
             ty = '&'
         elif kind == 'ovf_conv':
             e = ['fn', 'cint', [operand('&', 40000)]]
+        elif kind == 'ovf_sngband':
+            # a DOUBLE just above the largest SINGLE: it rounds to infinity in
+            # single precision (first such value is 2^128 - 2^103), assigned
+            # to a SINGLE variable
+            e = operand('#', r.choice((3.40282357e38, 3.4028235677973366e38, 3.4028236e38, -3.40282357e38)))
+            ty = '!'
+            form = 'let'
         elif kind == 'ovf_mul':
             e = ['bin', '*', operand('%', 20000), operand('%', 2)]
         elif kind == 'ovf_neg':
